@@ -1,9 +1,344 @@
 /-
-  C32 — Query language is total and means what it says.  (work in progress: first skeleton)
--/
-import MvModel.QueryLemmas
-namespace Mv.Query
+  C32 — Query language is total and means what it says.
 
-theorem C32_fuel_mono (T : Tables) (lim : Option Nat) (n : Nat) : Mono T lim n := mono T lim n
+  Model: MvModel/Query.lean (mirror of /repo/src/search/parser.rs and of the evaluation half of
+  /repo/src/search/mod.rs).  Lemmas: MvModel/QueryLemmas.lean (fuel), QuerySem.lean (token-level
+  semantics), QueryLex.lean (lexer), QueryDepth.lean (nesting limit).  This file: the property
+  theorems only.
+
+  Black boxes (`Tables`): `char::is_whitespace`, `char::is_alphanumeric`, the date parser, the
+  regex engine.  Every theorem holds for all of them; where something is needed it is the named
+  hypothesis `T.Sane` (the space is whitespace, visible ASCII is not).
+  `Cfg` carries what differs between the current and the repaired tree; `cfgGen` is read from
+  the source on every run (tools/gen/C32.py).
+-/
+import MvModel.QuerySem
+import MvModel.QueryLex
+import MvModel.QueryDepth
+import MvModel.QueryTables
+namespace Mv.Query
+open Mv.Gen.C32
+
+/-! ## 1. Totality -/
+
+/-- `parse_query` is total: on every input the model returns `ok` or one of the `InvalidQuery`
+    classes — the model's fuel (the only other outcome) never runs out, i.e. `tokenize` and
+    `parse_expression` terminate on every string.  (What the model cannot show is the stack: see
+    section 3.) -/
+theorem C32_total (T : Tables) (cfg : Cfg) (s : Str) : parse T cfg s ≠ .error .fuel := by
+  unfold parse
+  cases hl : lex T s with
+  | error e =>
+    intro h; injection h with h; subst h
+    exact lex_ne_fuel T s hl
+  | ok ts =>
+    simp only []
+    rw [parseTokens_eq]
+    have := pOr_NF T cfg.limit 0 ts
+    cases hp : pOr T cfg.limit 0 ts with
+    | error e => intro h; injection h with h; subst h; exact this hp
+    | ok p => intro h; cases h
+
+/-- so is parse-then-evaluate -/
+theorem C32_total_eval (T : Tables) (cfg : Cfg) (s : Str) (d : Doc) : queryMatches T cfg s d ≠ .error .fuel := by
+  unfold queryMatches
+  cases hp : parse T cfg s with
+  | error e => intro h; injection h with h; subst h; exact C32_total T cfg s hp
+  | ok e => intro h; cases h
+
+example : parse T0 ⟨none, false⟩ ['a', ' ', ')', ' ', 'b'] = .ok (.term (.word ['a'])) := by with_unfolding_all rfl
+example : parse T0 ⟨none, false⟩ ['(', '(', 'a'] = .error .expectedRParen := by with_unfolding_all rfl
+example : parse T0 ⟨none, false⟩ ['t', 'a', 'g', ':', '"', 'x'] = .error .unterminatedQuote := by with_unfolding_all rfl
+
+/-! ### what is dropped silently
+
+`parse_query` ignores whatever `parse_expression` leaves unconsumed.  The only thing that can be
+left is an unmatched `)` and everything after it (`a ) b` is read as `a`). -/
+
+theorem andLoop_stops (T : Tables) (lim : Option Nat) : ∀ n dep acc ts e r,
+    andLoop T lim n dep acc ts = .ok (e, r) → StopAnd r := by
+  intro n
+  induction n with
+  | zero => intro dep acc ts e r h; simp [andLoop] at h
+  | succ n ih =>
+    intro dep acc ts e r h
+    rcases ts with _ | ⟨t, r0⟩
+    · simp only [andLoop] at h; cases h; exact Or.inl rfl
+    · cases t <;> simp only [andLoop] at h <;>
+        first
+          | (cases h; first | exact Or.inr (Or.inl ⟨_, rfl⟩) | exact Or.inr (Or.inr ⟨_, rfl⟩))
+          | (obtain ⟨e', r', _, h2⟩ := bindP_ok_inv h; exact ih _ _ _ _ _ h2)
+
+theorem orLoop_stops (T : Tables) (lim : Option Nat) : ∀ n dep acc ts e r, StopAnd ts →
+    orLoop T lim n dep acc ts = .ok (e, r) → r = [] ∨ ∃ r', r = .rparen :: r' := by
+  intro n
+  induction n with
+  | zero => intro dep acc ts e r _ h; simp [orLoop] at h
+  | succ n ih =>
+    intro dep acc ts e r hs h
+    by_cases hts : ∃ r0, ts = Token.or :: r0
+    · obtain ⟨r0, rfl⟩ := hts
+      rw [orLoop.eq_2] at h
+      obtain ⟨e', r', h1, h2⟩ := bindP_ok_inv h
+      cases n with
+      | zero => simp [parseAnd] at h1
+      | succ m =>
+        rw [parseAnd] at h1
+        obtain ⟨e'', r'', _, h4⟩ := bindP_ok_inv h1
+        exact ih _ _ _ _ _ (andLoop_stops T lim _ _ _ _ _ _ h4) h2
+    · have hne : ∀ r0, ts = Token.or :: r0 → False := fun r0 hr => hts ⟨r0, hr⟩
+      rw [orLoop.eq_3 _ _ _ _ _ _ hne] at h
+      cases h
+      rcases hs with rfl | ⟨r0, rfl⟩ | ⟨r0, rfl⟩
+      · exact Or.inl rfl
+      · exact absurd rfl (fun hh => hne r0 hh)
+      · exact Or.inr ⟨r0, rfl⟩
+
+/-- tokens are dropped only behind an unmatched `)` -/
+theorem C32_dropped_tokens (T : Tables) (lim : Option Nat) (ts r : List Token)
+    (h : parseLeftover T lim ts = .ok r) : r = [] ∨ ∃ r', r = .rparen :: r' := by
+  unfold parseLeftover at h
+  cases hp : parseOr T lim (parseFuel ts) 0 ts with
+  | error e => rw [hp] at h; cases h
+  | ok p =>
+    obtain ⟨e, r0⟩ := p
+    rw [hp] at h
+    simp only [] at h
+    cases h
+    unfold parseFuel at hp
+    rw [parseOr] at hp
+    obtain ⟨e', r', h1, h2⟩ := bindP_ok_inv hp
+    rw [parseAnd] at h1
+    obtain ⟨e'', r'', _, h4⟩ := bindP_ok_inv h1
+    exact orLoop_stops T lim _ _ _ _ _ _ (andLoop_stops T lim _ _ _ _ _ _ h4) h2
+
+example : (lex T0 ['a', ' ', ')', ' ', 'b', ' ', 'O', 'R', ' ', 'c']).bind (parseLeftover T0 none)
+    = .ok [.rparen, .word ['b'], .or, .word ['c']] := by with_unfolding_all rfl
+
+/-! ## 2. Semantics -/
+
+/-- **Parsing the printed form of a query AST and evaluating it on a document gives the
+    reference boolean semantics of the AST.**  The printer (`print`) writes NOT tighter than AND
+    (explicit keyword or juxtaposition) tighter than OR and parenthesises only where precedence
+    demands; leaves are substring word/phrase matches and ASCII-case-insensitive field terms
+    (`evalRef`).  Hypotheses: the Unicode whitespace table is sane; the AST is well formed
+    (`Ast.WF`: words are single clean tokens, no wildcard terms, no `"` inside phrases/values…);
+    `scope:` compares case-insensitively (`cfg.scopeCI`, true on the repaired tree); the nesting
+    limit, if any, admits the nesting of the printed form. -/
+theorem C32_semantics (T : Tables) (hT : T.Sane) (cfg : Cfg) (hci : cfg.scopeCI = true)
+    (a : Ast) (hwf : a.WF T) (hfit : Fits cfg.limit (nest 0 a)) (d : Doc) :
+    queryMatches T cfg (print a) d = .ok (evalRef T d a) := by
+  obtain ⟨e, hs, hp⟩ := (toks_sem T cfg cfg.limit hci a hwf).p0 0 (by simpa using hfit)
+  have h0 := hp [] (Or.inl rfl)
+  rw [List.append_nil, pOrLoop_stop _ _ _ _ _ (by intro r h; cases h)] at h0
+  unfold queryMatches parse
+  rw [lex_print T hT a hwf]
+  simp only []
+  rw [parseTokens_eq, h0]
+  simp only [hs d]
+
+/-- nothing of a well-formed printed query is dropped -/
+theorem C32_semantics_no_leftover (T : Tables) (cfg : Cfg) (hci : cfg.scopeCI = true)
+    (a : Ast) (hwf : a.WF T) (hfit : Fits cfg.limit (nest 0 a)) :
+    parseLeftover T cfg.limit (toks 0 a) = .ok [] := by
+  obtain ⟨e, _, hp⟩ := (toks_sem T cfg cfg.limit hci a hwf).p0 0 (by simpa using hfit)
+  have h0 := hp [] (Or.inl rfl)
+  rw [List.append_nil, pOrLoop_stop _ _ _ _ _ (by intro r h; cases h)] at h0
+  unfold parseLeftover
+  have : parseOr T cfg.limit (parseFuel (toks 0 a)) 0 (toks 0 a) = pOr T cfg.limit 0 (toks 0 a) := rfl
+  rw [this, h0]
+
+/-- the sample AST  a OR ((NOT b) c) AND tag:"X y"  — printed without any parenthesis -/
+def sampleAst : Ast :=
+  .or (.word ['a']) (.and true (.and false (.not (.word ['b'])) (.word ['c'])) (.field .tag true ['X', ' ', 'y']))
+
+example : String.ofList (print sampleAst) = "a OR NOT b c AND tag:\"X y\"" := by decide
+theorem wordOK_letter (c : Char) (h1 : isBreak T0 c = false)
+    (h2 : c ≠ '*' ∧ c ≠ '?' ∧ c ≠ '"' ∧ c ≠ ':') (h3 : keywordOrWord [c] = .word [c])
+    (h4 : T0.isAlnum (lowerChar c) = true) : WordOK T0 [c] := by
+  refine ⟨?_, ?_, h3, ?_, ⟨lowerChar c, rfl, h4⟩, ⟨lowerChar c, rfl, h4⟩⟩
+  · intro d hd; simp only [List.mem_singleton] at hd; subst hd; exact ⟨h1, h2.1, h2.2.1⟩
+  · simp only [List.head?_cons, ne_eq, Option.some.injEq]; exact h2.2.2.1
+  · intro pfx after h
+    rw [splitAtChar_none ':' [c] (by simp only [List.mem_singleton]; exact fun hh => h2.2.2.2 hh.symm)] at h
+    cases h
+
+/-- non-vacuity: the sample satisfies every hypothesis of `C32_semantics` -/
+theorem sampleAst_wf : sampleAst.WF T0 :=
+  ⟨wordOK_letter 'a' (by decide) (by decide) (by decide) (by decide),
+   ⟨wordOK_letter 'b' (by decide) (by decide) (by decide) (by decide),
+    wordOK_letter 'c' (by decide) (by decide) (by decide) (by decide)⟩,
+   by decide, fun h => absurd h (by decide)⟩
+theorem T0_sane : T0.Sane := ⟨by decide, by
+  intro c h1 h2
+  simp only [T0, uniWs, Bool.or_eq_false_iff, Bool.and_eq_false_iff, decide_eq_false_iff_not, beq_eq_false_iff_ne]
+  omega⟩
+/-- `C32_semantics` applied: the sample query means  a ∨ ((¬b ∧ c) ∧ tag = "x y")  on every document -/
+example (d : Doc) : queryMatches T0 ⟨some 64, true⟩ (print sampleAst) d
+    = .ok (containsSub d.content ['a'] ||
+        ((!containsSub d.content ['b'] && containsSub d.content ['c']) && d.tags.any (fun t => lower t == ['x', ' ', 'y']))) :=
+  C32_semantics T0 T0_sane ⟨some 64, true⟩ rfl sampleAst sampleAst_wf (by show nest 0 sampleAst ≤ 64; decide) d
+/-- parentheses appear exactly where the weaker operator sits inside the stronger one -/
+example : String.ofList (print (.and true (.or (.word ['a']) (.word ['b'])) (.not (.or (.word ['c']) (.word ['d'])))))
+    = "( a OR b ) AND NOT ( c OR d )" := by decide
+
+/-- The defect in a tree whose `scope:` compares case-sensitively (`scopeCI = false`): the query
+    `scope:mv2://Docs` does not match the URI `mv2://Docs/a.md`, although the reference semantics
+    (and the literal text) say it does.  Replayed on the real code by the harness corpus. -/
+theorem C32_scope_case_defect :
+    let d : Doc := ⟨[], some "mv2://Docs/a.md".toList, none, [], [], 0, []⟩
+    let q : Ast := .field .scope false "mv2://Docs".toList
+    queryMatches T0 ⟨none, false⟩ (print q) d = .ok false ∧ evalRef T0 d q = true ∧
+    queryMatches T0 ⟨none, true⟩ (print q) d = .ok true := by
+  refine ⟨?_, ?_, ?_⟩ <;> with_unfolding_all rfl
+
+/-! ## 3. Recursion depth (the stack clause)
+
+`dep` counts the enclosing `(`/`NOT` levels of the call in progress; every level is at most four
+Rust stack frames (`parse_expression → parse_term → parse_factor → parse_primary`), the loops are
+`while` loops.  With `limit = none` (a tree without `MAX_QUERY_DEPTH`) the depth is unbounded
+(`C32_depth_unbounded`): the real parser then overflows its stack — the child-process runs of the
+harness exhibit the abort.  With `limit = some L` the recursion is cut at depth `L`
+(`C32_depth_limit_exact`), the cut affects only inputs that really nest deeper than `L`
+(`C32_depth`), and it does nothing but reject (`C32_limit_sound`). -/
+
+/-- `k` levels of parentheses around one word, pieces separated by spaces -/
+def parenText (k : Nat) : Str := joinSp (List.replicate k ['('] ++ [['a']] ++ List.replicate k [')'])
+/-- `k` NOTs before one word -/
+def notText (k : Nat) : Str := joinSp (List.replicate k ['N','O','T'] ++ [['a']])
+
+theorem lexAll_replicate (T : Tables) (s : Str) (t : Token) (h : LexesTo T s t) : ∀ k,
+    LexAll T (List.replicate k s) (List.replicate k t) := by
+  intro k
+  induction k with
+  | zero => trivial
+  | succ k ih => exact ⟨h, ih⟩
+
+theorem lexesTo_a (T : Tables) (hT : T.Sane) : LexesTo T ['a'] (.word ['a']) := by
+  refine ⟨by simp, fun rest hr => ?_⟩
+  have := lexStep_bare T hT ['a'] rest (by simp)
+    (by intro c hc; simp only [List.mem_singleton] at hc; subst hc
+        exact graphic_not_break T hT _ (by decide) (by decide) (by decide) (by decide))
+    (by decide) (by intro pfx after h; rw [splitAtChar_none ':' _ (by decide)] at h; cases h) hr
+  rw [this]; rfl
+
+theorem lex_parenText (T : Tables) (hT : T.Sane) (k : Nat) :
+    lex T (parenText k) = .ok (List.replicate k .lparen ++ [.word ['a']] ++ List.replicate k .rparen) :=
+  lex_joinSp T hT _ _ (LexAll.append (LexAll.append (lexAll_replicate T _ _ (lexesTo_lparen T hT) k)
+    (LexAll.single (lexesTo_a T hT))) (lexAll_replicate T _ _ (lexesTo_rparen T hT) k))
+
+theorem lex_notText (T : Tables) (hT : T.Sane) (k : Nat) :
+    lex T (notText k) = .ok (List.replicate k .not ++ [.word ['a']]) :=
+  lex_joinSp T hT _ _ (LexAll.append (lexAll_replicate T _ _ (lexesTo_not T hT) k) (LexAll.single (lexesTo_a T hT)))
+
+theorem parse_parenText (T : Tables) (hT : T.Sane) (cfg : Cfg) (k : Nat) :
+    (Fits cfg.limit k → parse T cfg (parenText k) = .ok (.term (fromWord T ['a']))) ∧
+    (¬ Fits cfg.limit k → parse T cfg (parenText k) = .error .tooDeep) := by
+  have hfit0 : Fits cfg.limit 0 := by cases h : cfg.limit <;> simp [Fits]
+  have hd := deep_paren T cfg.limit ['a'] k 0 [] hfit0
+  simp only [Nat.zero_add, List.append_nil] at hd
+  have hnot : ∀ r, (List.replicate k Token.lparen ++ Token.word ['a'] :: List.replicate k Token.rparen) = Token.not :: r → False := by
+    intro r h
+    cases k with
+    | zero => simp at h
+    | succ k => simp [List.replicate_succ] at h
+  unfold parse
+  rw [lex_parenText T hT k]
+  simp only [List.append_assoc, List.singleton_append]
+  rw [parseTokens_eq]
+  refine ⟨fun hf => ?_, fun hf => ?_⟩
+  · have h1 := hd.1 hf
+    rw [← pNot_other _ _ _ _ hnot] at h1
+    rw [pOr_of_pNot_stop T cfg.limit 0 _ _ _ h1 (Or.inl rfl) (by intro r h; cases h)]
+  · have h1 := hd.2 hf
+    rw [← pNot_other _ _ _ _ hnot] at h1
+    rw [pOr_of_pNot_error T cfg.limit 0 _ _ h1]
+
+theorem parse_notText (T : Tables) (hT : T.Sane) (cfg : Cfg) (k : Nat) :
+    (Fits cfg.limit k → parse T cfg (notText k) = .ok (notIter k (.term (fromWord T ['a'])))) ∧
+    (¬ Fits cfg.limit k → parse T cfg (notText k) = .error .tooDeep) := by
+  have hfit0 : Fits cfg.limit 0 := by cases h : cfg.limit <;> simp [Fits]
+  have hd := deep_not T cfg.limit ['a'] k 0 [] hfit0
+  simp only [Nat.zero_add] at hd
+  unfold parse
+  rw [lex_notText T hT k]
+  simp only []
+  rw [parseTokens_eq]
+  refine ⟨fun hf => ?_, fun hf => ?_⟩
+  · rw [pOr_of_pNot_stop T cfg.limit 0 _ _ _ (hd.1 hf) (Or.inl rfl) (by intro r h; cases h)]
+  · rw [pOr_of_pNot_error T cfg.limit 0 _ _ (hd.2 hf)]
+
+/-- Without a nesting limit every depth is reached: `k` parentheses (4k+1 characters) or `k` NOTs
+    make the parser recurse `k` levels deep and succeed.  This is the model-level statement of the
+    defect "the recursion is unbounded" (on the real code: stack overflow, process abort). -/
+theorem C32_depth_unbounded (T : Tables) (hT : T.Sane) (ci : Bool) (k : Nat) :
+    parse T ⟨none, ci⟩ (parenText k) = .ok (.term (fromWord T ['a'])) ∧
+    parse T ⟨none, ci⟩ (notText k) = .ok (notIter k (.term (fromWord T ['a']))) :=
+  ⟨(parse_parenText T hT ⟨none, ci⟩ k).1 trivial, (parse_notText T hT ⟨none, ci⟩ k).1 trivial⟩
+
+/-- With limit `L` the recursion is cut exactly at depth `L`: nests of depth `≤ L` parse, nests of
+    depth `L+1` (and more) are rejected as too deep — tightness of the bound, for `(` and for NOT. -/
+theorem C32_depth_limit_exact (T : Tables) (hT : T.Sane) (ci : Bool) (L k : Nat) :
+    (k ≤ L → parse T ⟨some L, ci⟩ (parenText k) = .ok (.term (fromWord T ['a'])) ∧
+             parse T ⟨some L, ci⟩ (notText k) = .ok (notIter k (.term (fromWord T ['a'])))) ∧
+    (L < k → parse T ⟨some L, ci⟩ (parenText k) = .error .tooDeep ∧
+             parse T ⟨some L, ci⟩ (notText k) = .error .tooDeep) := by
+  refine ⟨fun h => ⟨(parse_parenText T hT ⟨some L, ci⟩ k).1 h, (parse_notText T hT ⟨some L, ci⟩ k).1 h⟩,
+    fun h => ⟨(parse_parenText T hT ⟨some L, ci⟩ k).2 ?_, (parse_notText T hT ⟨some L, ci⟩ k).2 ?_⟩⟩ <;>
+  · simp only [Fits]; omega
+
+/-- The depth a query needs is at most its number of `(` and `NOT` tokens: a limit `L` that is
+    not smaller than that number never triggers (same result as the unlimited parser). -/
+theorem C32_depth (T : Tables) (ci : Bool) (L : Nat) (s : Str)
+    (h : ∀ ts, lex T s = .ok ts → nestCount ts ≤ L) :
+    parse T ⟨some L, ci⟩ s = parse T ⟨none, ci⟩ s := by
+  unfold parse
+  cases hl : lex T s with
+  | error e => rfl
+  | ok ts =>
+    simp only []
+    unfold parseTokens
+    rw [(limit_inert T L (parseFuel ts)).1 0 ts (by have := h ts hl; omega)]
+
+/-- The limit does nothing but reject: a limited parse is `tooDeep` or equals the unlimited one. -/
+theorem C32_limit_sound (T : Tables) (ci : Bool) (L : Nat) (s : Str) :
+    parse T ⟨some L, ci⟩ s = .error .tooDeep ∨ parse T ⟨some L, ci⟩ s = parse T ⟨none, ci⟩ s := by
+  unfold parse
+  cases hl : lex T s with
+  | error e => right; rfl
+  | ok ts =>
+    simp only []
+    unfold parseTokens
+    rcases (limit_sound T L (parseFuel ts)).1 0 ts with h | h
+    · left; rw [h]
+    · right; rw [h]
+
+example : nestCount [.lparen, .not, .word ['a'], .rparen] = 2 := by decide
+
+/-! ## 4. The tree as it is (constants read from /repo by tools/gen/C32.py)
+
+These two facts hold on the repaired tree (/verif/fixes/C32.diff) and fail to elaborate on a
+tree without the repair, where the harness exhibits both defects on the real code. -/
+
+/-- `scope:` ignores ASCII case, and the parser has a nesting limit -/
+theorem C32_tree_repaired : cfgGen.scopeCI = true ∧ cfgGen.limit.isSome = true := by decide
+
+/-- the property on the tree as it is: total, bounded recursion, reference semantics -/
+theorem C32_tree (T : Tables) (hT : T.Sane) :
+    (∀ s, parse T cfgGen s ≠ .error .fuel) ∧
+    (∃ L, cfgGen.limit = some L ∧ ∀ k, L < k →
+        parse T cfgGen (parenText k) = .error .tooDeep ∧ parse T cfgGen (notText k) = .error .tooDeep) ∧
+    (∀ a : Ast, a.WF T → Fits cfgGen.limit (nest 0 a) → ∀ d,
+        queryMatches T cfgGen (print a) d = .ok (evalRef T d a)) := by
+  refine ⟨fun s => C32_total T cfgGen s, ?_, fun a hwf hfit d => C32_semantics T hT cfgGen C32_tree_repaired.1 a hwf hfit d⟩
+  cases hlim : cfgGen.limit with
+  | none => have := C32_tree_repaired.2; rw [hlim] at this; cases this
+  | some L =>
+    refine ⟨L, rfl, fun k hk => ?_⟩
+    have hcfg : cfgGen = ⟨some L, cfgGen.scopeCI⟩ := by
+      cases hc : cfgGen with
+      | mk l c => rw [hc] at hlim; simp only at hlim; subst hlim; rfl
+    rw [hcfg]
+    exact (C32_depth_limit_exact T hT _ L k).2 hk
 
 end Mv.Query
